@@ -41,10 +41,10 @@ def run(F, chk):
     stages = lcstage.find_stage(F)
     L1.floor('lifecycle stage functions (anchor: evmap::WriteHandle + Receiver<DltMessage> params)', len(stages), 1)
     for b in stages:
-        res = lin.run_linearity(b, own.OwnSpec(), L1, L2, L7, min_recv=2, min_send=3, min_store=1)
+        res = lin.run_linearity(b, own.OwnSpec(), L1, L2, L7, min_recv=2, min_send=3, min_store=1, F=F)
         for cl in F.closures_of(b.path):
             if any(l['cm'] for l in cl.locals):
-                lin.run_linearity(cl, own.OwnSpec(), L1, L2, L7)
+                lin.run_linearity(cl, own.OwnSpec(), L1, L2, L7, F=F)
         st = lcstage.Stage(F, b)
         check_queue_api(b, Q1)
         check_handover(st, Q2)
